@@ -39,6 +39,7 @@ pub fn opts(which: Which) -> Opts {
     o.unwrap_pct = 35;
     // two block elements whose tags share a line (`<a> <b>` … `</b> </a>`); with an unwrap-block parent this leaves the domain and is counted
     o.join_pct = 8;
+    o.multiline_tag_pct = 12;
     o
 }
 
@@ -242,6 +243,9 @@ fn prepare(c: &AstCase, obs: &mut Obs, which: Which) -> Option<Lists> {
     if refmodel::ref_tags(&r.src, &c.spell.ds, &c.spell.de).len() != 2 * r.elems.len() {
         obs.excluded("rendering-does-not-tokenize-as-intended");
         return None;
+    }
+    if r.elems.iter().enumerate().any(|(i, e)| e.open_first_line != e.open_line && tr.decisions[i] == Decision::Ready) {
+        obs.class("ready-element-with-multi-line-opening-tag");
     }
     Some(Lists { r, tr, cfg })
 }
@@ -519,6 +523,7 @@ pub fn check(ctx: &mut Ctx, id: &'static str) {
     };
     ctx.assume("tags do not sit on unwrap wrapper lines; wrapper lines are non-empty code lines; text left of a marker is ASCII; no CR characters");
     ctx.replay_corpus(|sub, case, obs| replay(id, sub, case, obs));
+    ctx.require_class("ready-element-with-multi-line-opening-tag");
     match which {
         Which::C15 => {
             ctx.rule = "cases = AST block + inline documents (6 delimiter pairs, all readiness assignments), first byte not a line break. Oracle: list JSON == by-construction regions in source order (count, status Ready, first/last line); highlighted text of the pretty form (between ESC[31m and ESC[0m) == region text with tabs expanded; the source minus the highlighted texts equals clean's output modulo whitespace (ties the listing to the deletion without the model); two calls return identical strings. Non-trivial = at least one region.".into();
